@@ -33,11 +33,14 @@ type c13 struct {
 
 var c13modes = []string{"json-strict", "json-lax", "yaml-strict", "yaml-lax"}
 
+
 func newC13(w *core.W) *c13 {
 	c := &c13{w: w, dec: map[string]rel.Expr{}, enc: map[string]rel.Expr{}, csvEnc: map[string]rel.Expr{}}
 	for _, codec := range []string{"json", "yaml"} {
 		c.dec[codec+"-strict"] = obs.MustCompile("//encoding." + codec + ".decode(x)")
 		c.enc[codec+"-strict"] = obs.MustCompile("//encoding." + codec + ".encode(x)")
+		c.dec[codec+"-strict()"] = obs.MustCompile("//encoding." + codec + ".decoder(())(x)")
+		c.enc[codec+"-strict()"] = obs.MustCompile("//encoding." + codec + ".encoder(())(x)")
 		c.dec[codec+"-lax"] = obs.MustCompile("//encoding." + codec + ".decoder((strict: false))(x)")
 		c.enc[codec+"-lax"] = obs.MustCompile("//encoding." + codec + ".encoder((strict: false))(x)")
 	}
@@ -110,6 +113,38 @@ func c13errMsg(err error) string { return core.NormMsg(err.Error()) }
 // ---------------------------------------------------------------------------------------
 // Family 1: documents. decode d; encode(decode d) has the content of d (reference parser);
 // decode(encode(decode d)) = decode d.
+
+// cfgCase: a configured coder whose configuration does not mention `strict` is the default coder:
+// decoder(()) and decode, encoder(()) and encode give the same outcome on every document.
+func (c *c13) cfgCase(codec string, d *c13doc) {
+	w := c.w
+	wit := func() string { return codec + " document " + strconv.Quote(d.text()) }
+	w.Case(func() string { return "cfg|" + codec + "|" + d.topKind() + " ## " + wit() }, func() {
+		w.Eval(true)
+		sc := obs.Scope("x", rel.NewBytes([]byte(d.text())))
+		o1, o2 := obs.Eval(c.dec[codec+"-strict"], sc), obs.Eval(c.dec[codec+"-strict()"], sc)
+		if o2.Panic != "" && o1.Panic == "" {
+			w.Fail("panic", o2.Panic, wit(), "decoder(())")
+			return
+		}
+		if outcomeKey(o1) != outcomeKey(o2) {
+			w.Fail("wrong", codec+"|decoder-with-empty-configuration-differs-from-decode|"+d.feature(), wit(), short(outcomeKey(o2))+" vs "+short(outcomeKey(o1)))
+			return
+		}
+		if !o1.OK() {
+			return
+		}
+		sc = obs.Scope("x", o1.V)
+		e1, e2 := obs.Eval(c.enc[codec+"-strict"], sc), obs.Eval(c.enc[codec+"-strict()"], sc)
+		if e2.Panic != "" && e1.Panic == "" {
+			w.Fail("panic", e2.Panic, wit(), "encoder(())")
+			return
+		}
+		if outcomeKey(e1) != outcomeKey(e2) {
+			w.Fail("wrong", codec+"|encoder-with-empty-configuration-differs-from-encode|"+d.feature(), wit(), short(outcomeKey(e2))+" vs "+short(outcomeKey(e1)))
+		}
+	})
+}
 
 func (c *c13) docCase(base string, d *c13doc) {
 	w := c.w
@@ -268,6 +303,9 @@ func (c *c13) runDocs() {
 			w.Count("documents:"+fam.name, 1)
 			for _, base := range c13modes {
 				c.docCase(base, d)
+			}
+			for _, codec := range []string{"json", "yaml"} {
+				c.cfgCase(codec, d)
 			}
 			if fam.name == "depth2" && len(w.SamplesLeft()) > 3 {
 				w.Sample("document " + d.text() + " in 4 codec modes: decode, re-encode, reference-parse, re-decode")
@@ -1063,7 +1101,7 @@ func c13EncoderReuse(w *core.W) {
 
 var C13 = core.Check{
 	ID: "C13", Level: "exploration", Fn: checkC13, Watchdog: 60 * time.Second,
-	Rule: "JSON/YAML: every document of a finite grammar (null, booleans, 5 numbers, all strings of length<=2 over 12 runes + 29 YAML-sensitive strings, arrays/objects of <=2 (quick) / <=3 (thorough) children to depth 3 with empty containers, empty and duplicate keys, plus JSON-only and YAML-only spellings) x {json,yaml} x {strict,lax}: decode, re-encode, parse the output with Go's encoding/json / yaml.v3 and compare content, decode again and compare values; non-trivial = the reference parser accepts the document and it contains an empty string/array/object, null or boolean (the kinds the translators special-case). " +
+	Rule: "JSON/YAML: every document of a finite grammar (null, booleans, 5 numbers, all strings of length<=2 over 12 runes + 29 YAML-sensitive strings, arrays/objects of <=2 (quick) / <=3 (thorough) children to depth 3 with empty containers, empty and duplicate keys, plus JSON-only and YAML-only spellings) x {json,yaml} x {strict,lax} (and decoder(())/encoder(()) against decode/encode: same outcome): decode, re-encode, parse the output with Go's encoding/json / yaml.v3 and compare content, decode again and compare values; non-trivial = the reference parser accepts the document and it contains an empty string/array/object, null or boolean (the kinds the translators special-case). " +
 		"Strict encoders on every state of the U2 representation space and 40 probes: reject, or decode(encode v) = v up to strict tags; non-trivial = a document was produced. " +
 		"Wire format: Unmarshal(Marshal v) = v on U2 and on every nested tuple/array/string/number/boolean value of the grammar; non-trivial = the value contains a set-like component. " +
 		"CSV: every r x c matrix (r,c<=2 quick; <=3 thorough) over 8 fields x {lf,crlf}: reference-parse the output, decode, compare rows; non-trivial = a field is empty or needs quoting, or there are no rows/columns; and every CSV text of length<=5 (quick) / <=7 (thorough) over {a , \" \\n space \\r}: decode agrees with encoding/csv (rows or rejection) and decode(encode(decode d)) = decode d; non-trivial = the reference accepts it and it contains a separator, quote or newline. " +
